@@ -25,7 +25,7 @@ def run(ctx):
     cp = os.path.join(ctx.scratch, "cases.json")
     write_json(cp, cl)
     ctx.log("%d distinct cases from TLC" % len(cl))
-    args = ["-mode", "cases", "-in", cp, "-reps", ctx.pick(4, 6)]
+    args = ["-mode", "cases", "-in", cp, "-reps", ctx.pick(3, 5)]
     if ctx.thorough:
         args.append("-big")
     s, _ = ctx.drive(drv, args, name="c44-cases", timeout=7200)
@@ -35,10 +35,12 @@ def run(ctx):
     tp = os.path.join(ctx.scratch, "fuzz.ndjson")
     fargs = ["-mode", "fuzz", "-trace", tp, "-n", ctx.pick(400, 4000)] + (["-big"] if ctx.thorough else [])
     s2, _ = ctx.drive(drv, fargs, name="c44-fuzz", timeout=7200)
-    ok, consumed, total, r = ctx.validate("net/RLPxTrace", tp, ntraces=s2["traces"], timeout=7200)
+    ok = True
+    if os.path.exists(tp) and os.path.getsize(tp) > 0:      # otherwise the driver died (reported as a violation by ctx.drive)
+        ok, consumed, total, r = ctx.validate("net/RLPxTrace", tp, ntraces=s2["traces"], timeout=7200)
     if not ok:
         ctx.reject_trace("net/RLPxTrace", tp, consumed, r,
                          desc="session on real rlpx.Conn endpoints is not a behaviour of RLPx.tla at event %d (%s)" % (consumed + 1, r.violated or "result of the call differs"))
-    return ctx.finish(rule="MC: all interleavings of <=2 (thorough 3) messages per direction, reads, and <=1 (thorough 2) modifications over 5 handshake and 6 frame position classes plus invalid curve points; R: every complete run executed several times with seeded sizes/codes/compression/chunking; V: random longer sessions with several modifications",
+    return ctx.finish(rule="MC: all interleavings of <=2 (thorough 3) messages per direction, reads, and <=2 modifications over 5 handshake and 6 frame position classes plus invalid curve points; R: every complete run executed several times with seeded sizes/codes/compression/chunking; V: random longer sessions with several modifications",
                       assumptions=["one bit flipped per modification", "ECIES and the frame MACs are treated as unforgeable in the specification",
                                    "connection cut after a modified handshake packet"])
